@@ -42,26 +42,6 @@ def read_nifti_image(path: PathUri) -> Tuple[Tensor, Grid]:
     # Image sampling grid attributes
     dim = np.asarray(image.header["dim"])
     ndim = int(dim[0])
-    D = min(ndim, 3)
-    size = dim[1 : D + 1]
-    spacing = np.asarray(image.header["pixdim"][1 : D + 1])
-    affine = np.asarray(image.affine)
-    origin = affine[:D, 3]
-    direction = np.divide(affine[:D, :D], spacing)
-    # Convert to ITK LPS convention
-    origin[:2] *= -1
-    direction[:2] *= -1
-    # Replace small values and -0 by 0
-    epsilon = sys.float_info.epsilon
-    origin[np.abs(origin) < epsilon] = 0
-    direction[np.abs(direction) < epsilon] = 0
-    # Image data array
-    slope = image.dataobj.slope
-    inter = image.dataobj.inter
-    if abs(slope) > epsilon and (abs(slope - 1) > epsilon or abs(inter) > epsilon):
-        data: np.ndarray = image.get_fdata()
-    else:
-        data: np.ndarray = image.dataobj.get_unscaled()
     # Squeeze unused dimensions
     # https://github.com/InsightSoftwareConsortium/ITK/blob/3454d857dc46e4333ad1178be8c186547fba87ef/Modules/IO/NIFTI/src/itkNiftiImageIO.cxx#L1112-L1156
     intent_code = int(image.header["intent_code"])
@@ -81,7 +61,28 @@ def read_nifti_image(path: PathUri) -> Tuple[Tensor, Grid]:
         realdim = ndim
         while realdim > 3 and dim[realdim] == 1:
             realdim -= 1
-    data = np.reshape(data, data.shape[:realdim] + data.shape[5:])
+    D = min(realdim, 3)
+    size = dim[1 : D + 1]
+    spacing = np.asarray(image.header["pixdim"][1 : D + 1])
+    affine = np.asarray(image.affine)
+    origin = affine[:D, 3]
+    direction = np.divide(affine[:D, :D], spacing)
+    # Convert to ITK LPS convention
+    origin[:2] *= -1
+    direction[:2] *= -1
+    # Replace small values and -0 by 0
+    epsilon = sys.float_info.epsilon
+    origin[np.abs(origin) < epsilon] = 0
+    direction[np.abs(direction) < epsilon] = 0
+    # Image data array
+    slope = image.dataobj.slope
+    inter = image.dataobj.inter
+    if abs(slope) > epsilon and (abs(slope - 1) > epsilon or abs(inter) > epsilon):
+        data: np.ndarray = image.get_fdata()
+    else:
+        data: np.ndarray = image.dataobj.get_unscaled()
+    # Squeeze unused dimensions, channels of vector image are stored in the 5th dimension
+    data = np.reshape(data, data.shape[:realdim] + data.shape[4:])
     # Reverse order of axes
     data = np.transpose(data, axes=tuple(reversed(range(data.ndim))))
     # Add leading channel dimension
